@@ -340,6 +340,9 @@ struct Net {
 	corrupt_onion: Option<u64>,
 	/// distinct values of the static part of a channel's public projection -> small id
 	stat_ids: HashMap<String, usize>,
+	/// the highest dust-exposure limit in force on (node, channel) so far in this run (the user may change it, the fee
+	/// market may move it: a node is held to the weakest limit it ever had)
+	dustcap: HashMap<(usize, usize), u64>,
 	/// nodes whose user currently refuses payment events (handler returns ReplayEvent)
 	hold_events: Vec<bool>,
 	defer_drain: bool,
@@ -485,9 +488,31 @@ impl Net {
 		self.dirty[i].retain(|c| open.contains(c) && !(seen.contains(&(i, *c)) && !pend.contains(c)));
 	}
 
+	/// The node's configured dust-exposure limit on a channel as a user can compute it (C02: "within its configured
+	/// dust-exposure limit"): the fixed limit, or the multiplier times the node's own highest fee estimate (250 sat/kW on
+	/// zero-fee-commitment channels); the maximum of the values seen so far in the run.
+	fn dust_cap(&mut self, i: usize, cid: &ChannelId) -> u64 {
+		use lightning::chain::chaininterface::{ConfirmationTarget, FeeEstimator};
+		let c = self.chan(cid);
+		let now = self.nodes[i].node.list_channels().iter().find(|x| x.channel_id == *cid).and_then(|cd| {
+			let zf = cd.channel_type.as_ref().map(|t| t.supports_anchor_zero_fee_commitments()).unwrap_or(false);
+			cd.config.map(|cfg| match cfg.max_dust_htlc_exposure {
+				lightning::util::config::MaxDustHTLCExposure::FixedLimitMsat(x) => x,
+				lightning::util::config::MaxDustHTLCExposure::FeeRateMultiplier(m) => {
+					let fr = if zf { 250 } else { (self.nodes[i].fee_estimator.get_est_sat_per_1000_weight(ConfirmationTarget::MaximumFeeEstimate) as u64).max(253) };
+					fr.saturating_mul(m)
+				},
+			})
+		}).unwrap_or(0);
+		let e = self.dustcap.entry((i, c)).or_insert(0);
+		if now > *e { *e = now; }
+		(*e).min(2_000_000_000)
+	}
+
 	fn enqueue(&mut self, from: usize, to_pk: &PublicKey, w: Wire) {
 		let to = self.idx_of(to_pk);
 		let mut d = self.describe(&w);
+		if let Wire::Add(ref m) = w { let cap = self.dust_cap(from, &m.channel_id); d["dustcap"] = json!(cap); }
 		d["ev"] = json!("msg");
 		d["from"] = json!(from);
 		d["to"] = json!(to);
@@ -1082,6 +1107,9 @@ impl Net {
 		let before = self.log.lock().unwrap().len();
 		let n = self.nodes.len();
 		let mut did = true;
+		if matches!(name, "fee" | "config") {
+			for i in 0..n { let cids: Vec<ChannelId> = self.nodes[i].node.list_channels().iter().map(|c| c.channel_id).collect(); for cid in cids { self.dust_cap(i, &cid); } }
+		}
 		match name {
 			"send" => {
 				let src = op["from"].as_u64().unwrap() as usize;
@@ -1255,7 +1283,7 @@ impl Net {
 					let c = self.chan(&cid);
 					let cfgn = self.nodes[i].node.list_channels().iter().find(|x| x.channel_id == cid).and_then(|x| x.config);
 					let (fb, fp, cd) = cfgn.map(|x| (x.forwarding_fee_base_msat, x.forwarding_fee_proportional_millionths, x.cltv_expiry_delta)).unwrap_or((0, 0, 0));
-					self.ev(json!({"ev":"config","node":i,"chan":c,"ok":ok,"fee_base":fb,"fee_ppm":fp,"cltv_delta":cd}));
+					self.ev(json!({"ev":"config","node":i,"chan":c,"ok":ok,"fee_base":fb,"fee_ppm":fp,"cltv_delta":cd,"max_dust":op["max_dust_msat"].as_u64().unwrap_or(0)}));
 					self.drain();
 				} else { did = false; }
 			},
@@ -1529,6 +1557,10 @@ impl Net {
 			_ => { did = false; },
 		}
 		if did { self.executed += 1; } else { self.skipped += 1; let _ = before; }
+		// (the dust-exposure limits in force after this step: a later update_add_htlc is held to the weakest one so far)
+		if matches!(name, "fee" | "config" | "crash" | "reload") {
+			for i in 0..n { let cids: Vec<ChannelId> = self.nodes[i].node.list_channels().iter().map(|c| c.channel_id).collect(); for cid in cids { self.dust_cap(i, &cid); } }
+		}
 	}
 
 	/// C12: a ProbabilisticScorer fed with this run's payment paths is written and re-read; the copy
@@ -1821,7 +1853,9 @@ impl Net {
 			"limit+1" => limit.saturating_sub(extra) + 1,
 			"min" => min,
 			"min-1" => min.saturating_sub(1),
-			"dust" => rng.gen_range(min.max(1)..dust_sat * 1000),
+			// (when the dust-exposure limit is used up the reported minimum rises to the dust threshold: a dust amount is
+			//  then outside the limits and must be refused)
+			"dust" => if min.max(1) < dust_sat * 1000 { rng.gen_range(min.max(1)..dust_sat * 1000) } else { rng.gen_range(1000..dust_sat * 1000) },
 			"dust-edge" => dust_sat * 1000 + rng.gen_range(0..3) * 1000 - 1000,
 			"justabove" => dust_sat * 1000 + rng.gen_range(0..4_000_000),
 			// the real trimming thresholds of the first-hop channel at its current feerate: an HTLC is an output of a
@@ -1926,7 +1960,7 @@ fn build_net(run: u64, cfg: &Value, log: &Log) -> Net {
 	let mut net = Net {
 		nodes, cfgs, persisters, queues: HashMap::new(), connected, log: log.clone(), chans, hashes, points: Vec::new(),
 		pays: Vec::new(), scids, chan_ids, run, feerate: vec![feerate0; n], executed: 0, skipped: 0,
-		funding_txids: Vec::new(), extra_funding: Vec::new(), extra_broadcast: Vec::new(), mgr_snaps: vec![Vec::new(); n], mgr_clean: vec![Vec::new(); n], mgr_msgs: vec![Vec::new(); n], msgs_emitted: vec![0; n], mgr_evheld: vec![Vec::new(); n], mgr_writes: vec![Vec::new(); n], dirty: vec![HashSet::new(); n], mgr_held: vec![Vec::new(); n], reest_seen: HashSet::new(), tamper_cs: None, corrupt_onion: None, stat_ids: HashMap::new(), hold_events: vec![false; n], defer_drain: false, intercepts: Vec::new(), intercept_next: HashMap::new(), batch_wait: None, hold_failed_only: vec![false; n], refused_logged: HashSet::new(), settling: false, sweepers: (0..n).map(|_| None).collect(), mempool: Vec::new(), spent: HashSet::new(), confirmed: HashSet::new(), saved_idx: vec![None; n], node_cfgs, txids, edges: edges.clone(),
+		funding_txids: Vec::new(), extra_funding: Vec::new(), extra_broadcast: Vec::new(), mgr_snaps: vec![Vec::new(); n], mgr_clean: vec![Vec::new(); n], mgr_msgs: vec![Vec::new(); n], msgs_emitted: vec![0; n], mgr_evheld: vec![Vec::new(); n], mgr_writes: vec![Vec::new(); n], dirty: vec![HashSet::new(); n], mgr_held: vec![Vec::new(); n], reest_seen: HashSet::new(), tamper_cs: None, corrupt_onion: None, stat_ids: HashMap::new(), dustcap: HashMap::new(), hold_events: vec![false; n], defer_drain: false, intercepts: Vec::new(), intercept_next: HashMap::new(), batch_wait: None, hold_failed_only: vec![false; n], refused_logged: HashSet::new(), settling: false, sweepers: (0..n).map(|_| None).collect(), mempool: Vec::new(), spent: HashSet::new(), confirmed: HashSet::new(), saved_idx: vec![None; n], node_cfgs, txids, edges: edges.clone(),
 	};
 	for i in 0..n {
 		let _ = net.nodes[i].node.get_and_clear_needs_persistence();
